@@ -473,3 +473,42 @@ def run_for_property(pid: str, ctx) -> Dict:
     if problems:
         raise AnchorError(f"{pid}.selfcheck", "; ".join(problems)[:1500])
     return results
+
+
+def _rename_locals_in(tree: ast.Module, suffix="_r"):
+    def handle(fn):
+        params = set()
+        for n in ast.walk(fn):
+            if isinstance(n, ast.arguments):
+                for a in n.posonlyargs + n.args + n.kwonlyargs:
+                    params.add(a.arg)
+                if n.vararg:
+                    params.add(n.vararg.arg)
+                if n.kwarg:
+                    params.add(n.kwarg.arg)
+        declared = set()
+        for n in ast.walk(fn):
+            if isinstance(n, (ast.Global, ast.Nonlocal)):
+                declared |= set(n.names)
+        nested_names = {n.name for n in ast.walk(fn) if isinstance(n, (ast.FunctionDef, ast.ClassDef)) and n is not fn}
+        stored = {n.id for n in ast.walk(fn) if isinstance(n, ast.Name) and isinstance(n.ctx, (ast.Store, ast.Del))}
+        ren = {x for x in stored if x not in params and x not in declared and x not in nested_names and not x.startswith("__")}
+        for n in ast.walk(fn):
+            if isinstance(n, ast.Name) and n.id in ren:
+                n.id = n.id + suffix
+
+    for s in tree.body:
+        if isinstance(s, ast.FunctionDef):
+            handle(s)
+        elif isinstance(s, ast.ClassDef):
+            for m in s.body:
+                if isinstance(m, ast.FunctionDef):
+                    handle(m)
+
+
+@twin("b-rename-locals", "every local variable of every function renamed consistently")
+def _b_rename(root):
+    for p in _all_py(root):
+        tree = ast.parse(open(p).read())
+        _rename_locals_in(tree)
+        open(p, "w").write(ast.unparse(tree) + "\n")
